@@ -1,6 +1,6 @@
 (** Property C19 — [updog create] ingests a CSV faithfully in both modes.
     Statements only; proofs are [exact] of CsvProofs.v. *)
-From updog Require Import Prelude Index IndexProofs Csv CsvProofs CsvBytes CsvBytesProofs.
+From updog Require Import Prelude Index IndexProofs Csv CsvProofs CsvBytes CsvBytesProofs Utf8Proofs.
 Local Open Scope N_scope.
 
 (** Header normalisation: one byte per rune, a-z kept, A-Z lower-cased, everything else '_'
@@ -40,6 +40,17 @@ Proof. exact (csv_read_crlf s). Qed.
 Theorem C19_utf8 rs : Forall (λ r, scalar r = true) rs → utf8_decode (utf8_encode rs) = rs.
 Proof. exact (utf8_roundtrip rs). Qed.
 
+(** Go's decoding never yields a surrogate or a value beyond U+10FFFF, and a byte sequence that
+    decodes to a rune other than U+FFFD is the shortest encoding of that rune (no overlong or
+    alternative forms): header names are decoded the same way whatever bytes the file holds. *)
+Theorem C19_utf8_decode_scalar s : Forall (λ b, b < 256) s → Forall (λ r, scalar r = true) (utf8_decode s).
+Proof. exact (utf8_decode_scalar s). Qed.
+Theorem C19_utf8_no_overlong s r rs :
+  utf8_decode s = r :: rs → r ≠ 65533 → ∃ s', s = utf8_encode1 r ++ s' ∧ utf8_decode s' = rs.
+Proof. exact (utf8_decode_cons_encode s r rs). Qed.
+Theorem C19_utf8_ascii s : Forall (λ b, b < 128) s → utf8_decode s = s.
+Proof. exact (utf8_ascii s). Qed.
+
 Section C19.
   Context (H : list N → N).
 
@@ -75,5 +86,7 @@ Print Assumptions C19_fields_preserved.
 Print Assumptions C19_ragged_rejected.
 Print Assumptions C19_crlf_line_ends.
 Print Assumptions C19_utf8.
+Print Assumptions C19_utf8_decode_scalar.
+Print Assumptions C19_utf8_no_overlong.
 Print Assumptions C19_create_from_bytes.
 Print Assumptions C19_index_is_the_table.
